@@ -185,15 +185,20 @@ def run(tier, replay):
     f_mech = pool.submit(mechanism_selftest)
 
     s = f_main.result()
-    if s["records"] != s["items"]:
-        raise vlib.ToolError("harness logged %d records for %d (input, delivery) items" % (s["records"], s["items"]))
+    # fail-fast: after 5 confirmed hangs (50 deaths) of a (parser, delivery) the supervisor stops feeding it; the records
+    # logged so far carry the violation, the rest is declared as skipped.  On a healthy tree nothing is skipped.
+    if s["records"] + s["skipped_total"] != s["items"]:
+        raise vlib.ToolError("harness logged %d records (+%d skipped) for %d (input, delivery) items" % (s["records"], s["skipped_total"], s["items"]))
     hexes = {(r["id"], r["d"]): r.get("hex") for r in s["not_total"]}
     ctx.cov["evaluations"] = s["records"]
     ctx.cov["distinct_nontrivial"] = s["distinct_nontrivial"]
     ctx.add_part("harness", inputs=s["inputs"], distinct_inputs=s["distinct_inputs"], calls=s["records"], by_outcome=s["by_outcome"],
                  worker_restarts=s["worker_restarts"], worst_peak=s["worst_kib"], max_call_us=s["max_call_us"],
                  max_input_len=s["max_input_len"], shards=shards, rlimit_mb=s["rlimit_mb"], stack_kib=s["stack_kib"],
-                 watchdog_ms=s["watchdog_ms"], wall_s=round(s["wall_s"], 1), tlc_states_enumerated=tlc_inputs)
+                 watchdog_ms=s["watchdog_ms"], wall_s=round(s["wall_s"], 1), tlc_states_enumerated=tlc_inputs,
+                 skipped_after_confirmed_hangs_or_deaths=s["skipped"])
+    if s["skipped_total"]:
+        vlib.log("[C03] fail-fast: %d calls not run after repeated hangs/deaths: %s" % (s["skipped_total"], s["skipped"]))
     ctx.add_part("families", **{k.replace("/", ":"): v for k, v in s["by_family"].items()})
     for x in s["samples"]:
         ctx.sample(x)
@@ -248,7 +253,7 @@ def run(tier, replay):
 
     # ---- 4b. the tokio copy of the request parser: same inputs, served by the harness-tokio worker ----------------------
     tk = f_tk.result()
-    if tk["records"] != tk["items"] or tk["records"] == 0:
+    if tk["records"] + tk["skipped_total"] != tk["items"] or tk["records"] == 0:
         raise vlib.ToolError("tokio twin logged %d records for %d items" % (tk["records"], tk["items"]))
     tk_logs = ["%s.%d.ndjson" % (tk_prefix, i) for i in range(tk_shards)]
     hexes.update({(r["id"], r["d"]): r.get("hex") for r in tk["not_total"]})
@@ -264,7 +269,8 @@ def run(tier, replay):
         os.remove(lp)
     ctx.cov["evaluations"] += tk["records"]
     ctx.add_part("harness_tokio_request_parser", inputs=tk["inputs"], calls=tk["records"], by_outcome=tk["by_outcome"],
-                 worker_restarts=tk["worker_restarts"], worst_peak=tk["worst_kib"], wall_s=round(tk["wall_s"], 1))
+                 worker_restarts=tk["worker_restarts"], worst_peak=tk["worst_kib"], wall_s=round(tk["wall_s"], 1),
+                 skipped_after_confirmed_hangs_or_deaths=tk["skipped"])
 
     # ---- the model runs ---------------------------------------------------------------------------------------------
     witnesses = {}
@@ -355,7 +361,7 @@ def run(tier, replay):
     ctx.assumptions += [
         "ParseGuard in ParseProp.tla (outcome in {ok, err}; peak allocation <= 1024*(len + 64 KiB)) is the reading of the property (DESIGN 5a C03)",
         "the worker observes the process faithfully: counting global allocator (peak/largest request during the call), catch_unwind, RLIMIT_AS 1 GiB, "
-        "watchdog 5 s (retried once with 20 s before it counts), parser thread stack 2 MiB (Rust's default for spawned threads, which is where handlers run)",
+        "watchdog 5 s (a first hang is confirmed with 15 s and 30 s before it counts; after 5 logged hangs of a parser/delivery its remaining inputs are skipped), parser thread stack 2 MiB (Rust's default for spawned threads, which is where handlers run)",
         "json / conf take a complete &str: no byte-by-byte delivery exists for them; invalid UTF-8 reaches them only as the lossy conversion",
         "wsmsg runs over a socketpair wrapped as TcpStream; its byte-by-byte delivery is best effort (exact one-byte reads are exercised on the frame decoder)",
         "the tokio copy of the request parser is run by the harness-tokio worker on a current-thread runtime over an always-ready scripted AsyncRead",
